@@ -162,5 +162,27 @@ pub fn check(cx: &Cx, rep: &mut Report) {
             }
         }
     }
+    // ... and *everything* the registry answers afterwards must be consistent with the terminations that really
+    // happened (a respawn that leaves the dead entry behind, a fast path that mistakes "registered but stopped"
+    // for "there"): that is the registry's linearizability against the model whose liveness is the truth (C08.R1),
+    // adopted here for histories in which an instance terminated
+    let any_service_ended = [1u32, 2].iter().any(|k| {
+        let mut tasks: Vec<u32> = ix.tasks_of_tag.get(&(9000 + k)).cloned().unwrap_or_default();
+        for d in cx.prog.actors.iter().filter(|d| d.k as u32 == *k) {
+            tasks.extend(ix.tasks_of_tag.get(&d.tag).cloned().unwrap_or_default());
+        }
+        tasks.iter().any(|t| ix.task_end.contains_key(t))
+    });
+    if any_service_ended {
+        let mut sub = Report::default();
+        super::c08::check(cx, &mut sub);
+        if sub.premises.get("C08.R1.history_linearizable").copied().unwrap_or(0) > 0 {
+            rep.premise("C14.R3.registry_consistent_after_termination");
+            nontrivial = true;
+        }
+        for v in sub.violations.into_iter().filter(|v| v.rule == "R1") {
+            rep.fail(P, "R3", format!("c08:{}:{}", v.rule, v.sig), v.msg, v.at);
+        }
+    }
     rep.nontrivial = nontrivial;
 }
